@@ -11,6 +11,11 @@ package main
 //   pinc | spawn T pinc        PatchTreasures(key "p", INC n by 1, CreateIfNotExist=true); the spawned form parks at hook
 //                              inc.fetched (swamp.lockCurrentTreasure: object fetched or created, guard not yet taken)
 //   pdel | pget                Delete / read of key "p"   (`pget n=<k>|absent`)
+//   spawn T del                Delete of "x" in a goroutine; parks at hook del.acquired (deleteHandler holds the guard)
+//   spawnq T set V | inc | shift   plain Set / IncrementInt64(+1) / ShiftByKeys of "x" in a goroutine that is expected to
+//                              queue behind a guard holder → `T wait-timeout` (or `T done …` when nothing holds it)
+//   poll T                     where T is now → `T done ST` | `T wait-timeout`
+//   reload                     close the swamp (flush); the next request re-summons it from the file → `reload`
 // replies: `seta ST`, `setx ST`, `T@tested`, `T done ST`, `del DELETED|NOT_FOUND`, `get v=<n>|absent`
 //   ST = WROTE (NEW / UPDATED) | UNCHANGED (NOTHING_CHANGED) | NOT_FOUND
 
@@ -24,11 +29,13 @@ import (
 
 	"github.com/vmihailenco/msgpack/v5"
 
+	"github.com/hydraide/hydraide/app/name"
 	hydrapb "github.com/hydraide/hydraide/sdk/go/hydraidego/v3/hydraidepbgo"
 )
 
 type c09sThread struct {
 	name string
+	kind string
 	gate chan struct{}
 	done chan string
 	fin  bool
@@ -53,6 +60,17 @@ func c09sGen(rng *rand.Rand, tier string, w *bufio.Writer, c *int) {
 		*c++
 		// Set(CreateIfNotExist=false) against a delete
 		fmt.Fprintf(w, "case %d setx %s\nseta 5\nspawn A setx 1\ndel\ngo A\nget\n", *c, cfg)
+		*c++
+		if cfg != "m" {
+			// a Set queued behind a delete of a persisted key must not write on the removed object
+			fmt.Fprintf(w, "case %d setx %s\nseta 5\nreload\nspawn D del\nspawnq A set 7\ngo D\npoll A\nget\nreload\nget\n", *c, cfg)
+			*c++
+		}
+		// an increment queued behind a ShiftByKeys: either it runs first and the shift hands out its value, or it
+		// runs on a fresh record; two deletes of one key: one DELETED, one NOT_FOUND
+		fmt.Fprintf(w, "case %d setx %s\nseta 1\nspawn D del\nspawnq A shift\nspawnq B del\ngo D\npoll A\npoll B\nget\n", *c, cfg)
+		*c++
+		fmt.Fprintf(w, "case %d setx %s\nseta 1\nspawn D inchold\nspawnq A shift\nspawnq B inc\ngo D\npoll A\npoll B\nget\n", *c, cfg)
 		*c++
 		// two creating field patches that fetched the same in-flight treasure of a fresh key
 		fmt.Fprintf(w, "case %d setx %s\nspawn A pinc\nspawn B pinc\ngo A\ngo B\npget\n", *c, cfg)
@@ -115,6 +133,13 @@ func (s *c09sState) hook(th string) {
 	}
 }
 
+// hookKind parks only threads of the given kind
+func (s *c09sState) hookKind(th, kind string) {
+	if t := s.th[th]; t != nil && t.kind == kind {
+		s.hook(th)
+	}
+}
+
 func (s *c09sState) endCase() {
 	for _, t := range s.th {
 		if !t.fin {
@@ -124,7 +149,7 @@ func (s *c09sState) endCase() {
 			}
 			select {
 			case <-t.done:
-			case <-time.After(2 * time.Second):
+			case <-time.After(HxScale(4 * time.Second)):
 			}
 			t.fin = true
 		}
@@ -165,9 +190,38 @@ func c09sPinc(st *c09State) string {
 	return resp.GetResults()[0].GetStatus().String()
 }
 
+func c09sDel(st *c09State, key string) string {
+	resp, err := st.rig.GW.Delete(context.Background(), &hydrapb.DeleteRequest{Swamps: []*hydrapb.DeleteRequest_SwampKeys{{IslandID: 1, SwampName: st.swamp, Keys: []string{key}}}})
+	r := "NOT_FOUND"
+	if err == nil && resp != nil && len(resp.GetResponses()) == 1 && len(resp.GetResponses()[0].GetKeyStatuses()) == 1 {
+		r = resp.GetResponses()[0].GetKeyStatuses()[0].GetStatus().String()
+	}
+	return r
+}
+
 func c09sDo(st *c09State, kind string, v int64) string {
-	if kind == "pinc" {
+	switch kind {
+	case "pinc":
 		return c09sPinc(st)
+	case "del":
+		return c09sDel(st, "x")
+	case "set":
+		return c09sStatus(st, true, true, v)
+	case "inc", "inchold":
+		resp, err := st.rig.GW.IncrementInt64(context.Background(), &hydrapb.IncrementInt64Request{IslandID: 1, SwampName: st.swamp, Key: "x", IncrementBy: 1})
+		if err != nil || resp == nil || !resp.GetIsIncremented() {
+			return "ERR"
+		}
+		return "inc=" + strconv.FormatInt(resp.GetValue(), 10)
+	case "shift":
+		resp, err := st.rig.GW.ShiftByKeys(context.Background(), &hydrapb.ShiftByKeysRequest{IslandID: 1, SwampName: st.swamp, Keys: []string{"x"}})
+		if err != nil || resp == nil {
+			return "ERR"
+		}
+		if len(resp.GetTreasures()) == 1 && resp.GetTreasures()[0].Int64Val != nil {
+			return "shifted=" + strconv.FormatInt(*resp.GetTreasures()[0].Int64Val, 10)
+		}
+		return "shifted=none"
 	}
 	if kind == "seta" {
 		return c09sStatus(st, true, false, v)
@@ -218,7 +272,29 @@ func (s *c09sState) line(st *c09State, f []string) string {
 			}
 		}
 		return "pget n=absent"
-	case f[0] == "spawn" && ((len(f) == 4 && (f[2] == "seta" || f[2] == "setx")) || (len(f) == 3 && f[2] == "pinc")):
+	case f[0] == "reload" && len(f) == 1:
+		h := st.rig.Zeus.GetHydra()
+		nm := name.Load(st.swamp)
+		if ok, err := h.IsExistSwamp(1, nm); err == nil && ok {
+			if sw, err := h.SummonSwamp(context.Background(), 1, nm); err == nil {
+				sw.Close()
+			}
+		}
+		return "reload"
+	case f[0] == "poll" && len(f) == 2:
+		t := s.th[f[1]]
+		if t == nil || t.fin {
+			return "bad-op"
+		}
+		select {
+		case r := <-t.done:
+			t.fin = true
+			return t.name + " done " + r
+		case <-time.After(HxScale(1500 * time.Millisecond)):
+			return t.name + " wait-timeout"
+		}
+	case (f[0] == "spawn" || f[0] == "spawnq") && ((len(f) == 4 && (f[2] == "seta" || f[2] == "setx" || f[2] == "set")) ||
+		(len(f) == 3 && (f[2] == "pinc" || f[2] == "del" || f[2] == "inc" || f[2] == "inchold" || f[2] == "shift"))):
 		if s.th[f[1]] != nil {
 			return "bad-op"
 		}
@@ -226,17 +302,30 @@ func (s *c09sState) line(st *c09State, f []string) string {
 		if len(f) == 4 {
 			v, _ = strconv.ParseInt(f[3], 10, 64)
 		}
-		t := &c09sThread{name: f[1], gate: make(chan struct{}), done: make(chan string, 1)}
+		t := &c09sThread{name: f[1], kind: f[2], gate: make(chan struct{}), done: make(chan string, 1), hit: f[0] == "spawnq"}
 		s.th[f[1]] = t
 		go func() {
 			st.threads.Register(t.name)
 			defer st.threads.Unregister()
 			t.done <- c09sDo(st, f[2], v)
 		}()
+		if f[0] == "spawnq" {
+			// not parked at a hook point: it either finishes or queues behind a guard holder
+			select {
+			case r := <-t.done:
+				t.fin = true
+				return t.name + " done " + r
+			case <-time.After(HxScale(1500 * time.Millisecond)):
+				return t.name + " wait-timeout"
+			}
+		}
 		select {
 		case <-s.events:
-			if f[2] == "pinc" {
+			switch f[2] {
+			case "pinc":
 				return t.name + "@fetched"
+			case "del", "inchold":
+				return t.name + "@holds"
 			}
 			return t.name + "@tested"
 		case r := <-t.done:
